@@ -45,19 +45,19 @@ Print Assumptions C06_script_ops.
    tools/translate_imp.py (TranslatedImpCFiringScript.v; the script is a sparse dictionary, absent = 0) refine the script machine above:
    rep_vset n vs: the graph's vertex set is {0..n-1}; rep_script n sd s: the dictionary sd reads as the dense script s ---- *)
 Theorem C06_source_script_ops : forall n vs sd s, rep_vset n vs -> rep_script n sd s ->
-  (forall v, CFiringScript_get_firings vs sd v = if Nat.ltb v n then Some (nthZ s v) else None) /\
+  (forall v, CFiringScript_get_firings vs sd v = if Nat.ltb v n then PyOk (nthZ s v) else PyExn tt) /\
   (forall v k, match CFiringScript_set_firings vs sd v k with
-     | None => sstep n s (SSet v k) = Err | Some sd' => exists s', sstep n s (SSet v k) = Ok s' /\ rep_script n sd' s' end) /\
+     | PyExn st => sstep n s (SSet v k) = Err /\ st = sd | PyOk sd' => exists s', sstep n s (SSet v k) = Ok s' /\ rep_script n sd' s' end) /\
   (forall v k, match CFiringScript_update_firings vs sd v k with
-     | None => sstep n s (SUpdate v k) = Err | Some sd' => exists s', sstep n s (SUpdate v k) = Ok s' /\ rep_script n sd' s' end).
+     | PyExn st => sstep n s (SUpdate v k) = Err /\ st = sd | PyOk sd' => exists s', sstep n s (SUpdate v k) = Ok s' /\ rep_script n sd' s' end).
 Proof. intros n vs sd s Hv Hs. split; [intros v; apply get_firings_refines; assumption|]. split; [intros v k; apply set_firings_refines; assumption|intros v k; apply update_firings_refines; assumption]. Qed.
 Print Assumptions C06_source_script_ops.
 Theorem C06_source_states_representable : forall s, rep_vset (length s) (seq 0 (length s)) /\ rep_script (length s) (dict_of_div s) s.
 Proof. intros s. split; [apply rep_vset_of|apply rep_script_of]. Qed.
 Print Assumptions C06_source_states_representable.
 Example C06_source_nonvacuous :
-  CFiringScript_update_firings [0;1;2]%nat [(1%nat, 5)] 1%nat (2^70) = Some [(1%nat, 5 + 2^70)] /\
-  CFiringScript_update_firings [0;1;2]%nat [(1%nat, 5)] 2%nat (-3) = Some [(1%nat, 5); (2%nat, -3)] /\ CFiringScript_set_firings [0;1;2]%nat [] 3%nat 1 = None.
+  CFiringScript_update_firings [0;1;2]%nat [(1%nat, 5)] 1%nat (2^70) = PyOk [(1%nat, 5 + 2^70)] /\
+  CFiringScript_update_firings [0;1;2]%nat [(1%nat, 5)] 2%nat (-3) = PyOk [(1%nat, 5); (2%nat, -3)] /\ CFiringScript_set_firings [0;1;2]%nat [] 3%nat 1 = PyExn [].
 Proof. repeat split; vm_compute; reflexivity. Qed.
 
 Example C06_nonvacuous_beyond_64_bits : let g := [[0;1;1;1];[1;0;1;1];[1;1;0;1];[1;1;1;0]] in
